@@ -105,23 +105,47 @@ func (b *backend) setCompactRecord(ctx context.Context, revision uint64) error {
 }
 
 func (b *backend) getCompactBorders() [][]byte {
-	// exclude skipped key prefix
-	var keyPrefixes []string
-	keyPrefixes = append(keyPrefixes, b.config.Prefix)
-	keyPrefixes = append(keyPrefixes, b.config.SkippedPrefixes...)
-
-	// construct compact borders
-	var compactBorders [][]byte
-	for _, key := range keyPrefixes {
+	withSlash := func(key string) []byte {
 		if !strings.HasSuffix(key, "/") {
 			key = key + "/"
 		}
-		compactBorders = append(compactBorders, b.coder.EncodeObjectKey([]byte(key), 0))
-		compactBorders = append(compactBorders, b.coder.EncodeObjectKey(PrefixEnd([]byte(key)), 0))
+		return []byte(key)
 	}
-	// sort to make sure compact in right range
-	sort.Slice(compactBorders, func(i, j int) bool {
-		return bytes.Compare(compactBorders[i], compactBorders[j]) < 0
+
+	// range in charge
+	start := withSlash(b.config.Prefix)
+	end := PrefixEnd(start)
+
+	// skipped ranges inside the range in charge, sorted by start
+	type keyRange struct{ start, end []byte }
+	var skipped []keyRange
+	for _, key := range b.config.SkippedPrefixes {
+		s := withSlash(key)
+		e := PrefixEnd(s)
+		if bytes.Compare(e, start) <= 0 || bytes.Compare(s, end) >= 0 {
+			// out of the range in charge, nothing to exclude
+			continue
+		}
+		skipped = append(skipped, keyRange{start: s, end: e})
+	}
+	sort.Slice(skipped, func(i, j int) bool {
+		return bytes.Compare(skipped[i].start, skipped[j].start) < 0
 	})
+
+	// construct compact borders: the range in charge minus the union of the skipped ranges,
+	// which may be nested in each other
+	var compactBorders [][]byte
+	cur := start
+	for _, r := range skipped {
+		if bytes.Compare(r.start, cur) > 0 {
+			compactBorders = append(compactBorders, b.coder.EncodeObjectKey(cur, 0), b.coder.EncodeObjectKey(r.start, 0))
+		}
+		if bytes.Compare(r.end, cur) > 0 {
+			cur = r.end
+		}
+	}
+	if bytes.Compare(cur, end) < 0 {
+		compactBorders = append(compactBorders, b.coder.EncodeObjectKey(cur, 0), b.coder.EncodeObjectKey(end, 0))
+	}
 	return compactBorders
 }
